@@ -143,6 +143,9 @@ inductive Op
   | collStr (a : Attr)                         -- str(wrapper): '…' instead of the items when the session is over
   | collCreate (a : Attr)                      -- wrapper.create(**kw): a new item referring to obj
   | useAsRef                                   -- E(ref=obj) for a new object of the current thread
+  | staleArg                                   -- obj handed as an ARGUMENT to an operation on a LIVE object of the current session:
+                                               -- live.coll.add/remove(obj | [obj] | {obj} | (obj,)), live.coll = …, live.ref = obj,
+                                               -- live.set(ref=obj), E(ref=obj, coll=[obj]), live.coll.create(ref=obj)
   deriving DecidableEq, Repr, Inhabited
 
 /-- is a db_session active in the calling thread (`local.db_context_counter`) -/
@@ -423,6 +426,12 @@ def step (env : Env) (w : World) (i : Nat) (op : Op) : Res :=
     if over w o then ⟨w, .value .dots, []⟩ else ⟨w, .live, []⟩
   | .collCreate _ =>
     -- `item_type(**kwargs)` with `kwargs[reverse.name] = obj`: the same validate as `E(ref=obj)`
+    if !env.ambient then ⟨w, .dbRequired, []⟩ else
+    if over w o then ⟨w, .mixed, []⟩ else ⟨w, .live, []⟩
+  | .staleArg =>
+    -- Attribute.validate / Set.validate, for the bare instance as well as for every item of a list / set / tuple:
+    -- `if item._session_cache_ is not cache: throw(TransactionError, 'An attempt to mix objects belonging to different transactions')`
+    -- where `cache` is the live object's (or the current) session cache
     if !env.ambient then ⟨w, .dbRequired, []⟩ else
     if over w o then ⟨w, .mixed, []⟩ else ⟨w, .live, []⟩
   | .useAsRef =>
